@@ -312,11 +312,50 @@ func newEvaluator(rule string) (ev *parser.Evaluator, err error, escaped string)
 			escaped = "NewEvaluator: " + panicText(r)
 		}
 	}()
+	// Every eighth evaluator is PRECEDED by an evaluator (created, used once on an empty object, dropped) for a text that
+	// is a different rule but would share a key that is slightly too coarse: the same text up to the letter case of one
+	// attribute name, or up to the length of a run of blanks inside a string literal. What was parsed earlier in the
+	// process must not matter (C11), so this changes no expected outcome.
+	decoyTick++
+	if decoyTick%8 == 5 {
+		if v := nearbyRuleText(rule, decoyTick); v != rule {
+			func() {
+				defer func() { recover() }()
+				saved := append([]int(nil), callLog...)
+				if e2, _ := parser.NewEvaluator(v); e2 != nil {
+					e2.Process(map[string]interface{}{})
+				}
+				if decoyTick%16 == 13 {
+					rules.Evaluate(v, map[string]interface{}{})
+					parser.Evaluate(v, map[string]interface{}{})
+				}
+				callLog = append(callLog[:0], saved...)
+			}()
+		}
+	}
+	// ... and every eighth one by evaluations that END BADLY on other evaluators (dropped at once): a path walk that
+	// panics half-way (three segments, a scalar at the second), an integer / decimal list whose later element cannot be
+	// converted. Whatever such a call leaves behind in recycled objects (a pool of visitors, a free list, a shared buffer)
+	// must not reach the next evaluation.
+	if decoyTick%8 == 1 {
+		func() {
+			defer func() { recover() }()
+			saved := append([]int(nil), callLog...)
+			switch (decoyTick / 8) % 3 {
+			case 0:
+				parser.Evaluate("p9.q9.r9 eq 1", map[string]interface{}{"p9": map[string]interface{}{"q9": 5, "k": 7, "x": 1, "y": "s"}})
+			case 1:
+				parser.Evaluate("q9 in [7, 1, 99999999999999999999]", map[string]interface{}{"q9": 7})
+			default:
+				parser.Evaluate("q9 in [1.5, 1.0e999]", map[string]interface{}{"q9": 1.5})
+			}
+			callLog = append(callLog[:0], saved...)
+		}()
+	}
 	ev, err = parser.NewEvaluator(rule)
 	// Every third evaluator is followed by the creation of an evaluator for another rule text (the previous one seen)
 	// before it is used: an evaluator must not depend on what is parsed after it (C11), and the per-property checks must
 	// see a parse tree that still reads a recycled buffer. The decoy is dropped at once; it changes no expected outcome.
-	decoyTick++
 	if decoyTick%3 == 0 && lastRuleText != "" && lastRuleText != rule {
 		func() {
 			defer func() { recover() }()
@@ -325,6 +364,38 @@ func newEvaluator(rule string) (ev *parser.Evaluator, err error, escaped string)
 	}
 	lastRuleText = rule
 	return
+}
+
+// nearbyRuleText: another rule whose text collides with `rule` under lower-casing or under collapsing runs of blanks
+func nearbyRuleText(rule string, tick int) string {
+	b := []byte(rule)
+	inStr := false
+	var names, blanks []int
+	for i := 0; i < len(b); i++ {
+		c := b[i]
+		switch {
+		case c == '\\' && inStr:
+			i++
+		case c == '"':
+			inStr = !inStr
+		case inStr && c == ' ':
+			blanks = append(blanks, i)
+		case !inStr && ((c >= 'a' && c <= 'z') || (c >= 'A' && c <= 'Z')) && (i == 0 || b[i-1] == ' ' || b[i-1] == '(' || b[i-1] == '.' || b[i-1] == '\n'):
+			// first letter of a word outside a string: an attribute name or a keyword (a keyword with one letter of the
+			// other case is an attribute name or a syntax error - a different rule either way)
+			names = append(names, i)
+		}
+	}
+	if len(blanks) > 0 && tick%16 == 5 {
+		i := blanks[tick%len(blanks)]
+		return string(b[:i]) + " " + string(b[i:])
+	}
+	if len(names) > 0 {
+		i := names[tick%len(names)]
+		b[i] ^= 0x20
+		return string(b)
+	}
+	return rule
 }
 
 var decoyTick int
